@@ -109,9 +109,9 @@ fn add_val_val<R: Round, const B: Word>(
     let context = Context::max(lhs.context, rhs.context);
     rhs.repr.significand *= rhs_sign;
     let sum = if lhs.repr.is_zero() {
-        rhs.repr
+        context.repr_round(rhs.repr).value()
     } else if rhs.repr.is_zero() {
-        lhs.repr
+        context.repr_round(lhs.repr).value()
     } else {
         match lhs.repr.exponent.cmp(&rhs.repr.exponent) {
             Ordering::Equal => context.repr_round(Repr::new(
@@ -137,9 +137,9 @@ fn add_val_ref<R: Round, const B: Word>(
     let sum = if lhs.repr.is_zero() {
         let mut repr = rhs.repr.clone();
         repr.significand *= rhs_sign;
-        repr
+        context.repr_round(repr).value()
     } else if rhs.repr.is_zero() {
-        lhs.repr
+        context.repr_round(lhs.repr).value()
     } else {
         match lhs.repr.exponent.cmp(&rhs.repr.exponent) {
             Ordering::Equal => {
@@ -167,9 +167,9 @@ fn add_ref_val<R: Round, const B: Word>(
     let context = Context::max(lhs.context, rhs.context);
     rhs.repr.significand *= rhs_sign;
     let sum = if lhs.repr.is_zero() {
-        rhs.repr
+        context.repr_round(rhs.repr).value()
     } else if rhs.repr.is_zero() {
-        lhs.repr.clone()
+        context.repr_round_ref(&lhs.repr).value()
     } else {
         match lhs.repr.exponent.cmp(&rhs.repr.exponent) {
             Ordering::Equal => context.repr_round(Repr::new(
@@ -195,9 +195,9 @@ fn add_ref_ref<R: Round, const B: Word>(
     let sum = if lhs.repr.is_zero() {
         let mut repr = rhs.repr.clone();
         repr.significand *= rhs_sign;
-        repr
+        context.repr_round(repr).value()
     } else if rhs.repr.is_zero() {
-        lhs.repr.clone()
+        context.repr_round_ref(&lhs.repr).value()
     } else {
         match lhs.repr.exponent.cmp(&rhs.repr.exponent) {
             Ordering::Equal => context.repr_round(Repr::new(
